@@ -1,6 +1,7 @@
 From Coq Require Extraction ExtrOcamlBasic.
 From Common Require Import Words.
-From ServerLoop Require Import ServerLoopSpec ServerLoopModel.
+From ServerLoop Require Import ServerLoopSpec ServerLoopSpecMore ServerLoopModel.
 Extraction Language OCaml.
 Extraction "model.ml" anchor init step steps map_events sel_view
-  tmon0 rmon0 cmon0 imon0 tmon_step rmon_step cmon_step imon_step accepts verdict.
+  tmon0 rmon0 cmon0 imon0 tmon_step rmon_step cmon_step imon_step accepts verdict
+  wmon0 kmon0 cmt0 wmon_step kmon_step cmt_step accepts_text.
